@@ -71,6 +71,8 @@ class Ctl(object):
             hooks, s.on_line = s.on_line, []
             for h in hooks:
                 h()
+            # what a callback returns is its own business (odd submissions return a count, even ones an empty text)
+            return len(s.cb_args) if idx % 2 else ''
 
         self.log.append('submit #%d %s %r' % (idx, kind, line))
         try:
@@ -136,7 +138,7 @@ class Ctl(object):
     def hidden_state(self):
         """for state counting / the segmentation induction only - never for a verdict"""
         p = self.proto
-        return (p._buffer, p.fsm.state.name, p.response, p.code,
+        return (p._buffer, getattr(p.fsm.state, 'name', repr(p.fsm.state)), p.response, p.code,
                 None if p.command is None else p.command[1],
                 tuple(c[1] for c in p.commands), p.defer is not None)
 
